@@ -351,10 +351,11 @@ class Universe:
         """which token's data the real field `view` (of projected type f) holds, "?" if none"""
         try:
             tb = self.table(f, view.shape)
-        except Unusable:
-            raise
         except MachineryError:
-            return "?"                                   # a kind outside the catalogue (only a wrong result can have one)
+            # a kind outside the catalogue, or a (type, shape) for which two tokens coincide: every type and shape a
+            # correct result can have is registered beforehand (realise_scenario / plan_additions raise if one of THOSE
+            # is unusable), so only a wrong result gets here, and its type or shape is already not the expected one
+            return "?"
         parts = []
         _gather(view, f, parts)
         return tb.get(b"\0|".join(parts), "?")
@@ -597,6 +598,13 @@ def realise_scenario(scen):
     return got
 
 
+def plan_additions(uni, init, ops):
+    """register the types of the fields a chain adds (the tables of the scenario's own fields exist already)"""
+    for op in ops:
+        for f in op["add"]:
+            uni.table(f, list(init.shape) + list(f["sub"]))
+
+
 def run_chain(scen, ops, _memo={}):
     """step the real code through one chain -> [(pre, op, obs, exception)]"""
     m = _memo.get(id(scen))
@@ -608,6 +616,7 @@ def run_chain(scen, ops, _memo={}):
     cur = init.copy()
     steps = []
     _NAME_LISTS.clear()
+    plan_additions(uni, init, ops)
     for op in ops:
         op = expand(op, scen)
         pre = project(cur, uni)
@@ -806,7 +815,7 @@ BOUNDS = {
                 dict(Shapes={0, 1}, NFields={2}, Rots={6}, MaxDepth=2, Names1=2, NamesN=2, LeanFrom=2, Forms1={"list"})],
         seeded=1500),
     "thorough": dict(
-        single=dict(Shapes={0, 1, 2}, NFields={1, 2, 3, 4}, Rots=set(range(24)), MaxDepth=1, Names1=3, NamesN=1, LeanFrom=1,
+        single=dict(Shapes={0, 1, 2}, NFields={1, 2, 3, 4}, Rots=set(range(12)) | {12, 14, 16, 18, 20, 22}, MaxDepth=1, Names1=3, NamesN=1, LeanFrom=1,
                     Forms1={"list", "tuple", "ndarray", "scalar"}),
         chains=[dict(Shapes={s}, NFields={nf}, Rots={r}, MaxDepth=3, Names1=1, NamesN=1, LeanFrom=3, Forms1={"list"})
                 for s, nf, r in ((0, 2, 1), (1, 3, 6), (2, 2, 12), (2, 3, 4), (0, 3, 19), (1, 2, 7))] +
